@@ -38,10 +38,26 @@ LogicalP(p) == SetOfSeq(p.es)                       \* the model of a program: i
 
 \* which attribute values a (format, version) can represent (the driver's concretisation)
 SDom(fmt, ver) == 0..3
+\* CAPACITY FAMILIES.  Every builder has size-dependent layout decisions: a field width chosen from a table
+\* size, a page size, a block capacity.  They are boundaries of the builder-program alphabet, so a builder
+\* family carries a "capacity" parameter in its version number, and the driver pads the program with filler
+\* entries (checked on the way back: each filler must come back with its own content, and all of them) so
+\* that the total entry count sits at the boundary:
+\*   archive_index 10000 + 100*keysize + 10*offsetsize + c : key sizes {8, 9, 16} x offset sizes {4, 5, 6};
+\*        capacity = 4096 \div (keysize + 4 + offsetsize) records per block (a full block has no slack when the
+\*        record size divides 4096: 8/4); entry count = capacity-1, capacity, capacity+1, 2*capacity (c = 0..3)
+\*   encoding 2..5 : (CKey page KiB, EKey page KiB) = (4,4), (4,8), (8,4), (1,16), ten filler entries per table
+\*   tvfs 100+n (flags INCLUDE_CKEY) / 200+n (flags 7, EST) : n filler files; the container-file-table offset
+\*        width changes from 1 to 2 bytes when the table passes 255 bytes (12 resp. 11 files)
+AidxCapVers == {10000 + 100 * ks + 10 * ow + c : ks \in {8, 9, 16}, ow \in {4, 5, 6}, c \in 0..3}
+EncCapVers == 2..5
+TvfsCapVers == {100 + n : n \in {10, 11, 12, 30}} \cup {200 + n : n \in {10, 11, 12, 30}}
+IsCap(fmt, ver) == (fmt = "archive_index" /\ ver >= 10000) \/ (fmt = "encoding" /\ ver >= 2) \/ (fmt = "tvfs" /\ ver >= 100)
 ADom(fmt, ver) ==
-  IF fmt \in {"install", "size", "keyring_config"} THEN {0} ELSE {0, 1}
+  IF fmt \in {"install", "size", "keyring_config"} \/ (IsCap(fmt, ver) /\ fmt # "tvfs") THEN {0} ELSE {0, 1}
 TDom(fmt, ver) ==
-  CASE fmt \in {"install", "download", "size", "encoding", "patch_index"} -> 0..3
+  CASE fmt = "encoding" /\ ver >= 2 -> {0, 1}
+    [] fmt \in {"install", "download", "size", "encoding", "patch_index"} -> 0..3
     [] fmt = "root" -> IF ver = 1 THEN {1} ELSE {0, 1}
     [] fmt = "tvfs" -> {1}      \* the content-key column is a property of the table, not of an entry
     [] fmt \in {"patch_archive", "build_config", "cdn_config", "espec"} -> {0, 1}
@@ -52,6 +68,8 @@ FmtVers ==
    <<"root", 1>>, <<"root", 2>>, <<"root", 3>>, <<"root", 4>>, <<"tvfs", 0>>, <<"tvfs", 1>>,
    <<"patch_archive", 0>>, <<"patch_archive", 1>>, <<"patch_archive", 2>>, <<"espec", 0>>, <<"espec", 1>>, <<"patch_index", 1>>, <<"bpsv", 0>>, <<"bpsv", 1>>,
    <<"build_config", 0>>, <<"cdn_config", 0>>, <<"keyring_config", 0>>}
+  \cup {<<"archive_index", v>> : v \in AidxCapVers} \cup {<<"encoding", v>> : v \in EncCapVers}
+  \cup {<<"tvfs", v>> : v \in TvfsCapVers}
 
 \* abstract bytes: layout tag + entries.  "canon" is what the serialiser writes; "alt" stands for every
 \* other accepted arrangement of the same content (unsorted blocks, other field widths, comments ...).
